@@ -6,8 +6,10 @@ package utils
 
 import (
 	"bufio"
+	"bytes"
 	"fmt"
 	"io"
+	"math"
 
 	"github.com/dtn7/dtn7-go/pkg/bpv7"
 	"github.com/dtn7/dtn7-go/pkg/cla/tcpclv4/internal/msgs"
@@ -61,9 +63,20 @@ func (t *OutgoingTransfer) NextSegment(mtu uint64) (dtm *msgs.DataTransmissionMe
 		segFlags |= msgs.SegmentStart
 	}
 
-	var buf = make([]byte, mtu)
-	if n, rErr := io.ReadFull(t.dataStream, buf); rErr == io.ErrUnexpectedEOF {
-		buf = buf[:n]
+	if mtu == 0 {
+		// The peer's Segment MRU does not allow any data, a transfer would never make progress.
+		err = fmt.Errorf("segment MTU is zero")
+		return
+	} else if mtu > math.MaxInt32 {
+		// The segment's buffer grows with the available data, but no single segment needs to be that large.
+		mtu = math.MaxInt32
+	}
+
+	var segBuf bytes.Buffer
+	if n, rErr := io.CopyN(&segBuf, t.dataStream, int64(mtu)); rErr == io.EOF && n == 0 {
+		err = io.EOF
+		return
+	} else if rErr == io.EOF {
 		segFlags |= msgs.SegmentEnd
 	} else if rErr != nil {
 		err = rErr
@@ -73,6 +86,6 @@ func (t *OutgoingTransfer) NextSegment(mtu uint64) (dtm *msgs.DataTransmissionMe
 		segFlags |= msgs.SegmentEnd
 	}
 
-	dtm = msgs.NewDataTransmissionMessage(segFlags, t.Id, buf)
+	dtm = msgs.NewDataTransmissionMessage(segFlags, t.Id, segBuf.Bytes())
 	return
 }
